@@ -182,6 +182,11 @@ def check(ctx):
                   "%s:%d" % (cr.file, cr.line), "", "CallbackSystem::run does not go through run_with_cleanup")
     except mir.AnchorLost as e:
         ctx.fail("C17.c", "anchor-lost:CallbackSystem::run", "", str(e))
+    # state persists across calls: the boxed callback system is written back as Initialized with the same system and is
+    # initialized only when new (shared with C13.b)
+    import c13
+    n13 = core.adopt(ctx, c13, lambda o: o["rule"] == "C13.b" and "CallbackSystem::run_with_cleanup" in o["key"] and "RawCallbackSystem" not in o["key"], "C17.c")
+    ctx.floor("C17.c", n13, 4, "shared write-back obligations of CallbackSystem::run_with_cleanup (C13.b)")
     # ---- C17.d ----
     import c04
     n = core.adopt(ctx, c04, lambda o: o["rule"] == "C04.a" and any(k in o["key"] for k in ("deferred-applied", "exclusive-arm-always-runs", "run-then-cleanup")), "C17.d")
